@@ -2177,7 +2177,10 @@ def _config_str(
     macros = {}
     for (scope, selector), config in configuration_object.items():
       if _REGISTRY[selector].wrapped == macro:  # pylint: disable=comparison-with-callable
-        macros[scope, selector] = config
+        # Macros without a (literally representable) value can't be written
+        # out in a parseable form, so they are omitted.
+        if 'value' in config and _is_literally_representable(config['value']):
+          macros[scope, selector] = config
     if macros:
       formatted_statements.append('# Macros:')
       formatted_statements.append('# ' + '=' * (max_line_length - 2))
